@@ -46,6 +46,10 @@ TPad == /\ IsEvent("rcreq") /\ Cur.count > 1 /\ Cur.count = pad /\ Cur.bits = 32
         /\ (Cur.deliv = 1) <=> Immediate(mode)
         /\ UNCHANGED vars
 
+\* a request made from a deferred callback after the chip's flush (RangeChip!LateRequest; enabled only with AllowLateRequest)
+TLate == /\ IsEvent("rcreq") /\ Cur.count = 1 /\ Cur.mode = mode /\ Cur.deliv = 0
+         /\ LateRequest(Cur.bits)
+
 TEnd == IsEvent("enddefine") /\ EndDefine
 
 HandedWidths == {requested[collected[i]] : i \in 1..Len(collected)} \cup (IF pad > 0 THEN {32} ELSE {})
@@ -71,7 +75,7 @@ TOutcome == /\ IsEvent("outcome")
                \/ /\ phase = "refused" /\ Cur.kind = "refuse" /\ UNCHANGED vars
                \/ /\ phase = "define" /\ Cur.kind = "reject" /\ UNCHANGED vars   \* an immediate check failed on the evaluated value
 
-TraceNext == TStart \/ TNew \/ TReq \/ TPad \/ TEnd \/ TFlush \/ TGnark \/ TGnarkSilent \/ TOutcome
+TraceNext == TStart \/ TNew \/ TReq \/ TLate \/ TPad \/ TEnd \/ TFlush \/ TGnark \/ TGnarkSilent \/ TOutcome
 TraceSpec == TraceInit /\ [][TraceNext]_tvars
 
 HighWater == TLCSet(2, IF l > TLCGet(2) THEN l ELSE TLCGet(2))
